@@ -41,6 +41,9 @@ func VerifBatchClose(L int, batchSize int) {
 	src := &vSliceSrc{n: L}
 	out := Batch[int](src, time.Duration(1<<30), batchSize)
 	out.Close() // a Close that never returns is reported as a deadlock
+	atReturn := 0
+	vAtomic(func() { atReturn = src.closes })
+	vAssert(atReturn == 1, "C11:batch/source-closed-by-the-time-close-returns")
 	vQuiesce()
 	vAssert(vBlockedCount() == 0, "C11:batch/close-stops-the-background-work")
 	vAssert(src.closes == 1, "C11:batch/source-closed-exactly-once")
@@ -141,6 +144,9 @@ func VerifBatch(L int, batchSize int, withErr int, closeAfter int) {
 		vAssert(ended, "C11:batch/read-to-the-end")
 	}
 	out.Close() // must return (a blocked Close is reported as a deadlock)
+	atReturn := 0
+	vAtomic(func() { atReturn = src.closes })
+	vAssert(atReturn == 1, "C11:batch/source-closed-by-the-time-close-returns")
 	vQuiesce()
 	vAssert(vBlockedCount() <= 1, "C11:batch/close-stops-the-background-work") // the arrival goroutine may still be parked
 	vAssert(src.closes == 1, "C11:batch/source-closed-exactly-once")
